@@ -23,7 +23,9 @@ Record code_cfg12 := {
   sc_tally_lower : bool;
   sc_tally_upper : tally_form;
   sc_band_halved : bool;
-  sc_abstain_not_positive : bool     (* isAbstainVote := !rate.IsPositive() *)
+  sc_abstain_not_positive : bool;    (* isAbstainVote := !rate.IsPositive() *)
+  sc_update_gate : list string;      (* EndBlocker: gates on the path to UpdateExchangeRates *)
+  sc_slash_gate : list string        (* … to SlashAndResetMissCounters: only the slash-window gate *)
 }.
 
 Definition structural_ok12 (c : code_cfg12) : bool :=
@@ -33,7 +35,8 @@ Definition structural_ok12 (c : code_cfg12) : bool :=
   (match sc_per_period c with DivQuoRaw => true | _ => false end) &&
   sc_share_normalised c && sc_share_truncated c &&
   sc_tally_lower c && (match sc_tally_upper c with TallyNoAdd => true | _ => false end) &&
-  sc_band_halved c && sc_abstain_not_positive c.
+  sc_band_halved c && sc_abstain_not_positive c &&
+  strs_eqb (sc_update_gate c) ["+VotePeriod"%string] && strs_eqb (sc_slash_gate c) ["+SlashWindow"%string].
 
 (** the model variant denoted by the configuration: the flag of [step] (nil check present or not) *)
 Definition variant12 (c : code_cfg12) : option bool :=
